@@ -33,6 +33,7 @@ from typing import (
 from abc import abstractmethod, ABCMeta
 import textwrap
 import threading
+import weakref
 import inspect
 import types
 import typing
@@ -42,7 +43,9 @@ if TYPE_CHECKING:
 
 
 # A thread-safe registry mapping category names to component classes
-_COMPONENT_REGISTRY: Dict[str, List[Type[_SemantivaComponent]]] = {}
+# Classes are held weakly so dynamically generated (per-run) component classes
+# do not accumulate for the lifetime of the process.
+_COMPONENT_REGISTRY: Dict[str, "weakref.WeakSet[Type[_SemantivaComponent]]"] = {}
 _REGISTRY_LOCK = threading.Lock()
 
 
@@ -50,7 +53,8 @@ def get_component_registry() -> Dict[str, List[Type[_SemantivaComponent]]]:
     """
     Returns the global component registry, which maps component categories to their respective classes.
     """
-    return _COMPONENT_REGISTRY
+    with _REGISTRY_LOCK:
+        return {cat: list(classes) for cat, classes in _COMPONENT_REGISTRY.items()}
 
 
 class _SemantivaComponentMeta(ABCMeta):
@@ -75,7 +79,7 @@ class _SemantivaComponentMeta(ABCMeta):
                 return
             if cat:
                 with _REGISTRY_LOCK:
-                    _COMPONENT_REGISTRY.setdefault(cat, []).append(cls)
+                    _COMPONENT_REGISTRY.setdefault(cat, weakref.WeakSet()).add(cls)
 
 
 class _SemantivaComponent(metaclass=_SemantivaComponentMeta):
